@@ -49,7 +49,7 @@ func runLBHealth(x *X) {
 
 	var bcs []config.BackendConfig
 	for i := 0; i < nb; i++ {
-		bcs = append(bcs, config.BackendConfig{Name: fmt.Sprintf("b%d", i), Address: fmt.Sprintf("http://10.1.0.%d:80", i+1), Weight: []int{1, 0, 2, 3, 6, 10, 1, 8}[c.Intn(8, "weight")]})
+		bcs = append(bcs, config.BackendConfig{Name: fmt.Sprintf("b%d", i), Address: "http://" + x.BackendHost(1, i+1), Weight: []int{1, 0, 2, 3, 6, 10, 1, 8}[c.Intn(8, "weight")]})
 	}
 	nSteps := 3 + c.Intn(10, "nsteps")
 	if x.Tier == "thorough" {
@@ -61,7 +61,7 @@ func runLBHealth(x *X) {
 	s := x.StartMicro()
 	net := newStubNet(x)
 	for i, bc := range bcs {
-		net.add(bc.Name, fmt.Sprintf("10.1.0.%d:80", i+1), "")
+		net.add(bc.Name, x.BackendHost(1, i+1), "")
 	}
 	onErr := func(e *simrt.SchedError) {
 		x.Violate("C03", "C03/"+e.Kind+"{lbhealth}", "%s", e.Error())
@@ -308,9 +308,18 @@ func runLBHealth(x *X) {
 				// revives a backend inside its window (Helios does not even probe ejected backends)
 				if passive && threshold == 1 && everFailed[name] && nowHealthy && cur.at >= lastFailAt[name] && cur.at < lastFailAt[name]+W && !mustPassive {
 					x.Violate("C04", "C04/not-ejected-at-threshold", "backend %s answered a failed response at t=%v (threshold 1, window %v) and is reported healthy at t=%v", name, lastFailAt[name], W, cur.at)
+					// (the window exists whatever the flag says: see below)
+					if w := wins[name]; w == nil || lastFailAt[name]+W > w.lo {
+						wins[name] = &win{lo: lastFailAt[name] + W, hi: lastFailAt[name] + W, known: true, obsSeq: cur.seq}
+					}
 				}
 				if mustPassive && nowHealthy && cur.at < lastFailAt[name]+W {
 					x.Violate("C04", "C04/not-ejected-at-threshold", "backend %s answered %d failed responses in a row (threshold %d) and is still reported healthy at t=%v", name, consecFail[name], threshold, cur.at)
+					// whatever the flag says, the backend IS inside an unhealthy window (the threshold-th
+					// failure opened it): traffic dispatched into it is C02's business
+					if w := wins[name]; w == nil || lastFailAt[name]+W > w.lo {
+						wins[name] = &win{lo: lastFailAt[name] + W, hi: lastFailAt[name] + W, known: true, obsSeq: cur.seq}
+					}
 				}
 				if failedProbeFresh[name] && nowHealthy && active {
 					x.Violate("C04", "C04/failed-probe-did-not-eject", "backend %s failed an active probe and is still reported healthy at t=%v", name, cur.at)
@@ -389,7 +398,65 @@ func runLBHealth(x *X) {
 	}
 
 	for i := 0; i < nSteps && !x.dead; i++ {
-		switch c.Pick([]int{8, 4, 3, 4, 2, 2, 2, 2, 2, 1, 1, 2}, "step") {
+		switch c.Pick([]int{8, 4, 3, 4, 2, 2, 2, 2, 2, 1, 1, 2, 2}, "step") {
+		case 12: // biased pattern: the expiry check racing a fresh ejection. Every backend is ejected
+			// while slow failing requests are still in flight on them; those fail a moment after the
+			// windows have (quietly) elapsed -- and at that very instant new requests arrive, whose
+			// "has the window expired?" check interleaves with the re-ejection
+			if !passive {
+				continue
+			}
+			net.mu.Lock()
+			for _, b := range net.order {
+				b.mode = "s500"
+			}
+			net.mu.Unlock()
+			lateD := W + time.Duration(100+c.Intn(400, "race-late-ms"))*time.Millisecond
+			spawnAt := x.Now()
+			nlate := threshold * nb
+			for j := 0; j < nlate; j++ {
+				cl := manyClients[(j*13+i)%len(manyClients)]
+				s.Spawn("slowreq", func() { h.do(reqSpec{client: cl, path: "/late", plan: &reqPlan{mode: "s500", delay: lateD}}) })
+				x.Settle(onErr)
+			}
+			x.Fault("slow-failing-request")
+			for j := 0; j < threshold*nb && !x.dead; j++ {
+				cl := manyClients[(j*7+i)%len(manyClients)]
+				x.Do("req", func() { h.do(reqSpec{client: cl, path: "/eject"}) }, onErr)
+			}
+			if !stepObserve() {
+				break
+			}
+			net.mu.Lock()
+			for _, b := range net.order {
+				b.mode = "ok"
+			}
+			net.mu.Unlock()
+			racers := 1 + c.Intn(3, "racers")
+			for j := 0; j < racers; j++ {
+				cl := manyClients[(j*5+i+3)%len(manyClients)]
+				s.Spawn("racer", func() {
+					if rest := spawnAt + lateD - x.Now(); rest > 0 {
+						TaskSleep(rest)
+					}
+					h.do(reqSpec{client: cl, path: "/race"})
+				})
+			}
+			x.Advance(spawnAt+lateD-x.Now()+time.Millisecond, onErr)
+			x.Probe("expiry-check-racing-re-ejection")
+			steps = append(steps, fmt.Sprintf("expiry-race(late=%v,racers=%d)", lateD, racers))
+			if !stepObserve() {
+				break
+			}
+			for j := 0; j < 3 && !x.dead; j++ {
+				cl := manyClients[(j*11+i+1)%len(manyClients)]
+				x.Do("req", func() { h.do(reqSpec{client: cl, path: "/after-race"}) }, onErr)
+				if !stepObserve() {
+					break
+				}
+				x.Advance(W/5, onErr)
+			}
+			continue
 		case 11: // biased pattern: requests arrive at the very instant of a probe round in which a
 			// backend fails its probe: picks overlap the probe-caused ejection
 			if !active {
@@ -441,7 +508,7 @@ func runLBHealth(x *X) {
 				}
 			}
 			nm := fmt.Sprintf("b%d", len(net.order))
-			host := fmt.Sprintf("10.1.0.%d:80", len(net.order)+1)
+			host := x.BackendHost(1, len(net.order)+1)
 			net.add(nm, host, "")
 			addedWeight = 1 + c.Intn(3, "w")
 			x.Do("add", func() {
